@@ -122,6 +122,24 @@ def gen_case(rng, tier):
                     traj.append([ts, r, rnd_pose(rng)])
         if rng.random() < 0.4:
             masters = 'first'
+    if rng.random() < 0.3:
+        # a slowly moving platform sampled at high rate: consecutive poses of one device differ by far less than any
+        # tolerance-based pose equality (1e-5 on translation, 1e-2 on quaternion components) would notice, in small or
+        # UTM-sized coordinates
+        far = rng.choice([0.0, 0.0, 4.0e5])
+        by_dev = {}
+        for e in sorted(traj, key=lambda e: e[0]):
+            by_dev.setdefault(e[1], []).append(e)
+        for dev, es in by_dev.items():
+            q = [F(h) for h in es[0][2][:4]]
+            t = [F(h) + far for h in es[0][2][4:]]
+            es[0][2] = [H(v) for v in q + t]
+            for e in es[1:]:
+                dq = rng.choice([1e-4, 1e-3, 0.0])
+                dt = rng.choice([1e-6, 1e-3, 0.5]) if far else rng.choice([1e-7, 1e-6, 5e-6])
+                q = [q[0], q[1] + dq * rng.uniform(-1, 1), q[2] + dq * rng.uniform(-1, 1), q[3]]
+                t = [v + dt * rng.uniform(-1, 1) for v in t]
+                e[2] = [H(v) for v in q + t]
     # sparse recovery: some member poses are missing (a sensor that was not localised at that timestamp); what remains
     # still agrees with the rig geometry
     sparse = rng.randrange(1, 10 ** 6) if op == 'recover' and rng.random() < 0.5 else None
